@@ -5,8 +5,11 @@ import unicodedata as pyud
 from ufo import build, rat
 
 ID = "C05"
-PROOF_FILES = ["C05"]
-THEOREM = "Ufo2ft.C05.* (quantize, KerningPair order / first-match precedence = UFO precedence, mergeScripts, partition facts)"
+PROOF_FILES = ["C05Order", "C05Quant", "C05Groups", "C05Ufo", "C05Merge", "C05Split", "C05Part", "C05Reg", "C05Together", "C05"]
+THEOREM = ("Ufo2ft.C05.C05_precedence / C05_ufo_value / C05_ufo_some / C05_ufo_none (first match of the sorted rules = rounded UFO value), "
+           "sortPairs_sorted, firstMatch_minimal, quantize_near, mergeFix_apart / mergedSets_unique / mergeScripts_perm, "
+           "split_count / split_where / split_sound, partition_sound / partition_disjoint / partition_complete, splitKerning_together, "
+           "C05_register / C05_dflt")
 N = {"quick": 300, "thorough": 6000}
 RULE = ("random kerning fonts: repertoire drawn from Latin, Cyrillic, Greek, Arabic, Hebrew, Devanagari, kana, digits, Arabic-Indic digits, "
         "punctuation, combining marks and unencoded alternates reached through generated GSUB rules; random disjoint public.kern1/kern2 "
@@ -15,11 +18,19 @@ RULE = ("random kerning fonts: repertoire drawn from Latin, Cyrillic, Greek, Ara
         "statements; quantization in {1,2,5,10}; ignoreMarks on/off. (a) structural: the writer's emitted lookups, rules and script/language "
         "registrations (read from the feature-file AST) vs the Lean model; (b) semantic: the compiled GPOS evaluated by an independent PairPos "
         "interpreter for EVERY ordered glyph pair under every script tag vs UFO kerning semantics (lookupKerningValue re-stated in Lean). "
-        "non-trivial = at least two scripts of different direction or an exception chain of depth>=2 is present, and some pair is non-zero.")
+        "non-trivial = at least two scripts of different direction or an exception chain of depth>=2 is present, and some pair is non-zero. "
+        "Second stream (op agree2, max(40, n/4) more fonts): single-direction fonts - only left-to-right scripts, or only right-to-left "
+        "ones, plus digits / punctuation / a combining mark / alternates, same group and kerning generators - compiled with BOTH shipped "
+        "writers (kernFeatureWriter and kernFeatureWriter2); for every script tag of the font (a tag missing from the ScriptList falls back "
+        "to DFLT, as in a shaper) the adjustment applied to every ordered glyph pair of one script run must be the same in the two fonts; "
+        "non-trivial there = both fonts kern something.")
 ASSUMED = ["Unicode script / script-extension / bidi data and the GSUB closure are inputs (the model takes the implementation's classification; "
            "the property predicate uses an independent one computed from the stdlib unicodedata and the generated GSUB rules)",
            "feaLib compiles the emitted statements as written (specific pairs before class pairs; first definition wins)",
-           "kernFeatureWriter2 (the second shipped writer) is compared end-to-end only"]
+           "kernFeatureWriter2 (the second shipped writer) is not modelled: it is compared end-to-end with writer 1 on single-direction fonts "
+           "(equality of the applied adjustments, evaluated by the Lean driver)",
+           "wfKern (valid UFO 3 groups, distinct group names and kerning keys, no glyph named like a kerning group) for the UFO-value theorem; "
+           "glyph pairs both in the glyph set"]
 
 POOL = {
     "latn": [("A", 0x41), ("V", 0x56), ("T", 0x54), ("o", 0x6F), ("a", 0x61), ("e", 0x65)],
@@ -37,13 +48,22 @@ POOL = {
 LANGSYS = {"latn": "latn", "cyrl": "cyrl", "grek": "grek", "arab": "arab", "hebr": "hebr", "deva": "dev2", "kana": "kana"}
 
 
-def gen(rng, n, mode):
+def gen1(rng, n, mode, single=False):
     for i in range(n):
-        fams = rng.sample(["latn", "cyrl", "grek", "arab", "hebr", "deva", "kana"], rng.choice([1, 1, 2, 2, 3]))
-        fams += [f for f in ["digit", "ardigit", "punct", "mark"] if rng.random() < 0.55]
+        if single:
+            rtl = rng.random() < 0.5
+            fams = rng.sample(RTL_FAMS, rng.choice([1, 2])) if rtl else rng.sample(LTR_FAMS, rng.choice([1, 2, 2, 3]))
+            # Arabic-Indic digits carry the (right-to-left) Arabic script: they would make a left-to-right font bidirectional
+            fams += [f for f in (["digit", "ardigit", "punct", "mark"] if rtl else ["digit", "punct", "mark"]) if rng.random() < 0.55]
+        else:
+            fams = rng.sample(["latn", "cyrl", "grek", "arab", "hebr", "deva", "kana"], rng.choice([1, 1, 2, 2, 3]))
+            fams += [f for f in ["digit", "ardigit", "punct", "mark"] if rng.random() < 0.55]
         glyphs = []
         for f in fams:
             pool = POOL[f]
+            if single and f == "mark":
+                # a combining mark of the font's own direction only (fatha-ar has right-to-left script extensions)
+                pool = [m for m in pool if (m[0] == "fatha-ar") == rtl]
             for nm, cp in rng.sample(pool, rng.randrange(1, len(pool) + 1)):
                 glyphs.append([nm, cp])
         alts = []
@@ -100,6 +120,19 @@ def gen(rng, n, mode):
                "ignoreMarks": rng.random() < 0.8, "lib": rng.choice(["ufoLib2", "defcon"]), "markWidth": rng.choice([0, 0, 200])}
 
 
+LTR_FAMS = ["latn", "cyrl", "grek", "deva", "kana"]
+RTL_FAMS = ["arab", "hebr"]
+
+
+def gen(rng, n, mode):
+    """stream 1 (unchanged): `n` mixed-script fonts for the model/UFO-semantics check; then stream 2: single-direction fonts
+    (only left-to-right scripts, or only right-to-left ones, plus neutral glyphs) compiled with both shipped kern writers."""
+    yield from gen1(rng, n, mode)
+    for case in gen1(rng, max(40, n // 4), mode, single=True):
+        case["stream"] = "agree2"
+        yield case
+
+
 def _fea(case):
     t = "".join("languagesystem %s %s;\n" % (s, l) for s, l in case["langsys"])
     if case["alts"]:
@@ -141,7 +174,89 @@ def _program(feaFile):
     return {"lookups": lookups, "kern": feats.get("kern", []), "dist": feats.get("dist", [])}
 
 
+def _font_desc(case):
+    return {"glyphs": [{"name": nm, "width": (case["markWidth"] if nm in case["marks"] else 500), "unicodes": [cp],
+                        "contours": [[[0, 0, "line"], [100, 0, "line"], [50, 80, "line"]]]} for nm, cp in case["glyphs"]] +
+            [{"name": a, "width": 510, "unicodes": [], "contours": [[[0, 0, "line"], [90, 0, "line"], [50, 70, "line"]]]} for a, _ in case["alts"]],
+            "groups": {g[0]: g[1] for g in case["groups"]}, "kerning": case["kerning"], "features": _fea(case)}
+
+
+def _indep(case):
+    """independent classification from Unicode data: names, glyph -> script extensions, glyph -> bidi, script -> direction"""
+    from fontTools import unicodedata as ftud
+    names = [g[0] for g in case["glyphs"]] + [a[0] for a in case["alts"]]
+    base = {a: b for a, b in case["alts"]}
+    cps = {nm: cp for nm, cp in case["glyphs"]}
+    iscripts, ibidi, scripts, prop = [], [], set(), {}
+    for nm in names:
+        cp = cps.get(nm, cps.get(base.get(nm)))
+        se = sorted({("Hrkt" if s in ("Hira", "Kana") else s) for s in ftud.script_extension(chr(cp))})
+        iscripts.append([nm, se]); scripts.update(se)
+        b = pyud.bidirectional(chr(cp))
+        ibidi.append([nm, "R" if b in ("R", "AL") else ("L" if b in ("L", "EN", "AN") else "")])
+        prop[nm] = ftud.script(chr(cp))
+    idir = [[s, "RTL" if ftud.script_horizontal_direction(s, "LTR") == "RTL" else "LTR"] for s in sorted(scripts)]
+    tagScript = sorted([t, s] for s in scripts if s not in ("Zyyy", "Zinh") for t in ftud.ot_tags_from_script(s))
+    return names, iscripts, ibidi, idir, tagScript, prop
+
+
+def run_agree2(case):
+    """stream 2: the same single-direction font through both shipped kern writers; what a shaper applies to every glyph pair
+    of one script run (both glyphs in the script or neutral) under every script tag of the font must be the same.
+    Shaper semantics: a script tag missing from the GPOS ScriptList falls back to DFLT."""
+    import ufo2ft
+    from fontTools.ttLib import TTFont
+    from ufo2ft.featureWriters.kernFeatureWriter import KernFeatureWriter as W1
+    from ufo2ft.featureWriters.kernFeatureWriter2 import KernFeatureWriter as W2
+    import gpos
+    names, iscripts, ibidi, idir, tagScript, prop = _indep(case)
+    sc = dict((g, set(s)) for g, s in iscripts)
+
+    def inscript(s, g):
+        return bool(sc[g] & {"Zyyy", "Zinh"}) or s in sc[g]
+
+    obs = {"err": None}
+    tables = []
+    for W in (W1, W2):
+        font = build(_font_desc(case), case["lib"])
+        applied = []
+        try:
+            tt = ufo2ft.compileTTF(font, useProductionNames=False,
+                                   featureWriters=[W(quantization=case["q"], ignoreMarks=case["ignoreMarks"])])
+            buf = io.BytesIO(); tt.save(buf); buf.seek(0)
+            tt = TTFont(buf)
+        except Exception as e:
+            obs["err"] = "%s:%s" % (W.__module__.rsplit(".", 1)[-1], type(e).__name__)
+            tables.append([]); continue
+        if "GPOS" in tt:
+            sf = gpos.script_features(tt)
+            order = tt.getGlyphOrder()
+            for tag, s in tagScript:
+                lk = gpos.lookups_for(tt, tag if tag in sf else "DFLT", "dflt", {"kern", "dist"})
+                if lk is None:
+                    continue
+                ent = []
+                for g1 in names:
+                    for g2 in names:
+                        if g1 in order and g2 in order and inscript(s, g1) and inscript(s, g2):
+                            a = gpos.pair_adjust(tt, lk, g1, g2)
+                            if a[0] or a[1] or a[2] or a[3]:
+                                ent.append([g1, g2, rat(a[0]), rat(a[1])] if not (a[2] or a[3]) else [g1, g2, "999999", "999999"])
+                if ent:
+                    applied.append([tag, ent])
+        tables.append(applied)
+    obs["applied1"], obs["applied2"] = tables
+    dirs = {d for _, d in idir}
+    inp = {"glyphs": names, "groups": case["groups"], "kerning": [[a, b, rat(v)] for a, b, v in case["kerning"]], "q": rat(case["q"]),
+           "ignoreMarks": case["ignoreMarks"], "marks": case["marks"] if case["gdef"] else [],
+           "indep": {"scripts": iscripts, "bidi": ibidi, "dir": idir, "scriptProperty": sorted(prop.items())}, "tagScript": tagScript}
+    tags = ["agree2", "agree2:" + ("RTL" if "RTL" in dirs else "LTR"), "err:" + str(obs["err"])] + (["agree2:bidir"] if len(dirs) > 1 else [])
+    return [{"op": "agree2", "in": inp, "obs": obs, "tags": tags, "nontrivial": bool(tables[0]) and bool(tables[1])}]
+
+
 def run(case):
+    if case.get("stream") == "agree2":
+        return run_agree2(case)
     import ufo2ft
     from fontTools import unicodedata as ftud
     from fontTools.ttLib import TTFont
@@ -236,6 +351,9 @@ def run(case):
 
 def agree(req, rep):
     m, o = rep["model"], req["obs"]
+    if req["op"] == "agree2":
+        # nothing of the Lean model is compared here; the driver only evaluates the Bool "the two applied tables are equal"
+        return o.get("err") is None and m == {"entries": sum(len(e) for _, e in o["applied1"])}
     if o.get("err") is not None:
         return False
     p = o["program"]
@@ -271,6 +389,8 @@ def classify_failure(res):
     bad = res.get("info") or []
     if not bad or r["obs"].get("err") is not None:
         return None
+    if r["op"] == "agree2":
+        return _classify_agree2(r, bad)
     inp = r["in"]
     bidi = dict(inp["indep"]["bidi"])
     iscripts = dict((g, s) for g, s in inp["indep"]["scripts"])
@@ -337,11 +457,59 @@ def classify_failure(res):
     return {"shapes": sorted(shapes)}
 
 
-LEVEL_TEXT = ("Proved (Lean): quantisation is the nearest multiple (halves up); KerningPair ordering is a strict total preorder putting "
-              "glyph-glyph < glyph-class < class-glyph < class-class, so first-match over sorted rules realises UFO precedence; script "
-              "buckets after mergeScripts are pairwise disjoint; facts about partitionByScript. The full executable model of the kern writer "
-              "(groups, pairs, base/mark split, script partition and merge, bidi filter, RTL records, DFLT/script/language registration) is "
-              "tied to the code structurally on every run, and the UFO-semantics predicate is evaluated on the compiled GPOS for every glyph pair.")
+def _classify_agree2(r, bad):
+    """the two writers may differ only in a right-to-left script, on a glyph pair whose UFO value comes from an exception chain
+    in which some rule's cell (the glyphs of its two sides) contains a glyph of bidi type L (a digit) or a glyph whose Unicode
+    Script property is Common/Inherited while its script extensions are right-to-left (Arabic harakat, Arabic-Indic digits ...):
+    writer 1 decides direction per class cell from Script_Extensions and the bidi sets (the three known shapes), writer 2 from
+    the Script property and per-cell bidi sets; every other disagreement is a violation."""
+    inp = r["in"]
+    bidi = dict(inp["indep"]["bidi"])
+    prop = dict(inp["indep"]["scriptProperty"])
+    iscripts = dict((g, s) for g, s in inp["indep"]["scripts"])
+    idir = dict(inp["indep"]["dir"])
+    t2s = {}
+    for t, s in inp["tagScript"]:
+        t2s.setdefault(t, []).append(s)
+    groups = {g[0]: [m for m in g[1] if m in inp["glyphs"]] for g in inp["groups"]}
+    kern = {(a, b) for a, b, v in inp["kerning"]}
+
+    def grps(pfx, g):
+        # all of them: with overlapping (invalid) groups the two writers need not keep the same one
+        return [n for n, ms in groups.items() if n.startswith(pfx) and g in ms]
+
+    def odd(x):
+        neutral_prop = prop.get(x) in ("Zyyy", "Zinh")
+        rtl_ext = any(idir.get(s) == "RTL" for s in iscripts.get(x, []))
+        return bidi.get(x, "") == "L" or (neutral_prop and rtl_ext)
+
+    for tag, g1, g2 in bad:
+        if not all(idir.get(s) == "RTL" for s in t2s.get(tag, [])) or not t2s.get(tag):
+            return None
+        cands = [(a, b) for a in [g1] + grps("public.kern1.", g1) for b in [g2] + grps("public.kern2.", g2) if (a, b) in kern]
+        if not cands:
+            return None
+        cells = [set(groups.get(k[0], [k[0]])) | set(groups.get(k[1], [k[1]])) for k in cands]
+        if not any(odd(x) for c in cells for x in c):
+            return None
+    return {"shapes": ["writers-differ-rtl-cell-with-bidiL-or-neutral-property-glyph"]}
+
+
+LEVEL_TEXT = ("Proved (Lean, all inputs): KerningPair.__lt__ is a strict weak order and pairs.sort() yields a sorted permutation; the first "
+              "matching rule of the sorted list is a most specific matching rule; for well-formed kerning data (wfKern) it carries exactly "
+              "quantize(ufoKern) - glyph-glyph, glyph-group, group-glyph, group-group, zero group-group entries aside - and no rule matches "
+              "iff no entry (or a zero group-group entry) determines the pair; quantize is the nearest multiple of a positive step, halves up; "
+              "mergeScripts: the fuel is sufficient, merged script sets are pairwise disjoint, every bucket key lies in exactly one of them, "
+              "buckets sharing a script land together, the multiset of pairs is kept; _splitBaseAndMarkPairs keeps every matching rule exactly "
+              "once with value and specificity, base list iff neither glyph is a mark; partitionByScript cells match subsets, never two "
+              "opposite directions, cover every compatible glyph pair and are disjoint for single-direction glyphs (counterexample without that "
+              "hypothesis proved); split pairs of an exception and of the class pair it excepts that match the same glyph pair land in the "
+              "same splitKerning bucket (same lookup); "
+              "_registerLookups: each script tag gets Common + Inherited + own lookups, DFLT gets Common + all LTR (else RTL), each once. "
+              "The full executable model of the kern writer is tied to the code structurally on every run, the UFO-semantics predicate is "
+              "evaluated on the compiled GPOS for every glyph pair, and the two shipped writers are compared on single-direction fonts.")
 LEVEL_NOTE = ("Trusted: Lean kernel + standard axioms; correspondence harness incl. the independent GPOS interpreter; Unicode data as input; "
-              "partial: the end-to-end theorem 'applyGPOS = ufoKern for every script' is not proved in full (see DESIGN), the bidi-ambiguous "
-              "class cell is a known finding; writer 2 is compared end-to-end only.")
+              "partial: the composition of the proved pieces into one end-to-end theorem 'applyGPOS = ufoKern for every script' (DESIGN C05_once) "
+              "is not stated in Lean - the bidi filter (makeRules) and the bucket/registration chain are checked by correspondence only; the "
+              "bidi-ambiguous class cell is a known finding; writer 2 is compared end-to-end only and differs from writer 1 in right-to-left "
+              "fonts with digits or Arabic marks (known finding).")
